@@ -16,7 +16,8 @@ RULE = ('(pattern, target) pairs: target <= 24 atoms (corpus subset, curated, co
         '(QueryElement.from_atom with drawn flags, QueryBond.from_bond with/without ring mark), or one of 46 SMARTS incl. ring '
         'closures and dot-separated components; drawn searching scope; both automorphism-filter settings. oracle: exhaustive '
         'enumeration of injective maps with the library atom/bond __eq__ as leaf predicates and the four stated clauses. '
-        'non-trivial = reference set non-empty and pattern has >= 2 atoms; distinct by (pattern, target) strings')
+        'non-trivial = reference set non-empty and pattern has >= 2 atoms; distinct by (pattern, target) strings'
+        '; also: metallacycle targets with hybridisation-constrained heavy-atom patterns.')
 ASSUMPTIONS = ['leaf semantics of atom/bond equality are C08\'s subject: here the library\'s own __eq__ is the predicate',
                'reference enumerator vf/oracles/iso.py is exponential: targets <= 24 atoms, patterns <= 8 atoms',
                'query patterns use the default matcher configuration (compiled path through the pyx executor); C09 compares the two paths']
